@@ -30,7 +30,8 @@ CONSTANTS MaxDepth,      \* length of the emitted paths
           Octants,       \* subset of 1..8: sign patterns applied to the base points
           PartnerIdx,    \* the second vector b is the image of this base point in the octant after a's (vector mode)
           MaxDegree,     \* field mode: all monomials x^i y^j z^k with i + j + k <= MaxDegree
-          Scales         \* subset of DOMAIN ScaleTable: the factors offered to Scale; {} disables the action
+          Scales,        \* subset of DOMAIN ScaleTable: the factors offered to Scale; {} disables the action
+          AngleFields    \* BOOLEAN: field mode also takes the azimuth-dependent fields (where their value is rational)
 
 \* a = num / den: the Cartesian components of vector a (field mode: the physical point, den = 1);
 \* magn / den = |a| (vector mode; Pythagorean points have integer length)
@@ -44,11 +45,14 @@ ScaleTable == << <<2, 1>>, <<-2, 1>>, <<1, 2>>, <<-1, 2>>, <<3, 1>>, <<-1, 1>>, 
 
 \* x^2 + y^2 and x^2 + y^2 + z^2 are perfect squares: every trigonometric value of the cylindrical and
 \* spherical angles of these points (and of their sign variants) is rational, so the real library computes
-\* exactly.  None lies on the axis x = y = 0.  (The same table is harness/geom.py BASE_POINTS; the last two
-\* lie in the plane z = 0 and are given to the library as two-component vectors.)
+\* exactly.  Entries 13..15 have trailing zero components and are given to the library as vectors with FEWER than
+\* three components (in the Cartesian and in the cylindrical system; a missing component is a zero component).
+\* Entry 16 lies ON the axis x = y = 0: it is the meaning of a spherical vector given without its polar angle
+\* ([r, theta] = [r, theta, 0]); the statement excludes re-expressing it INTO a curvilinear system (singular), so
+\* only Rebase to Cartesian is offered for it.  Entry 17 and 8 have a rational half azimuth (AngleFields).
 PythagoreanPoints == << <<3, 4, 12>>, <<12, 9, 8>>, <<12, 16, 15>>, <<9, 12, 20>>, <<5, 12, 84>>, <<8, 15, 144>>,
                         <<15, 20, 60>>, <<7, 24, 60>>, <<4, 3, 12>>, <<9, 12, 8>>, <<16, 12, 15>>, <<12, 9, 20>>,
-                        <<3, 4, 0>>, <<15, 8, 0>> >>
+                        <<3, 4, 0>>, <<15, 8, 0>>, <<5, 0, 0>>, <<0, 0, 5>>, <<119, 120, 1092>> >>
 BasePoints == {PythagoreanPoints[i] : i \in PointIdx}
 Partner    == PythagoreanPoints[PartnerIdx]
 Monomials  == {e \in [1..3 -> 0..MaxDegree] : e[1] + e[2] + e[3] <= MaxDegree}
@@ -66,6 +70,25 @@ Dot3(p, q)  == p[1] * q[1] + p[2] * q[2] + p[3] * q[3]
 MagSq3(p)   == Dot3(p, p)
 Scale3(k, p) == <<k * p[1], k * p[2], k * p[3]>>
 MonoValue(p, e) == IPow(p[1], e[1]) * IPow(p[2], e[2]) * IPow(p[3], e[3])
+OnAxis(p)   == p[1] = 0 /\ p[2] = 0
+
+\* Fields that depend on the AZIMUTH theta = atan2(y, x) in (-pi, pi] itself, not only on its sine and cosine
+\* (they see an error in the branch of the angle, e.g. atan(y/x) instead of atan2(y, x), which no polynomial
+\* in x, y, z does).  In cylindrical coordinates (rho, theta, z):
+\*     HalfSinField = rho sin(theta/2) + z        HalfCosField = rho cos(theta/2) - z
+\* with sin(theta/2) = sign(y) sqrt((rho - x) / (2 rho)), cos(theta/2) = sqrt((rho + x) / (2 rho)) >= 0.
+\* They are offered at the points where these roots are rational.
+HalfSinField == <<-1, 0, 0>>
+HalfCosField == <<-2, 0, 0>>
+Rho(p)     == ISqrt(p[1] * p[1] + p[2] * p[2])
+HalfDefined(p) == /\ p[2] # 0 /\ IsSquareI(p[1] * p[1] + p[2] * p[2])
+                  /\ IsSquareR(Norm(Rho(p) - p[1], 2 * Rho(p))) /\ IsSquareR(Norm(Rho(p) + p[1], 2 * Rho(p)))
+HalfSin(p) == LET r == RSqrt(Norm(Rho(p) - p[1], 2 * Rho(p))) IN IF p[2] < 0 THEN RNeg(r) ELSE r
+HalfCos(p) == RSqrt(Norm(Rho(p) + p[1], 2 * Rho(p)))
+FieldValue(p, e) ==
+  IF e = HalfSinField THEN RAdd(RMul(R(Rho(p)), HalfSin(p)), R(p[3]))
+  ELSE IF e = HalfCosField THEN RSub(RMul(R(Rho(p)), HalfCos(p)), R(p[3]))
+  ELSE R(MonoValue(p, e))
 Length(p)   == CHOOSE r \in 0..500 : r * r = MagSq3(p)          \* of a Pythagorean point
 
 \* what must be observable in the current state (rationals as normalised <<n, d>>)
@@ -78,7 +101,7 @@ Observation ==
         mag  |-> Norm(magn, den),                                 \* |a| >= 0 whatever the sign of the scale factors
         unit |-> [i \in 1..3 |-> Norm(a[i], magn)],               \* a / |a|
         proj |-> [i \in 1..3 |-> Norm(Dot3(a, b) * b[i], den * MagSq3(b))]]   \* (a.b / b.b) b
-  ELSE [value |-> MonoValue(a, b),
+  ELSE [value |-> FieldValue(a, b),
         \* applying the field to a point of kind k: the value, or refused when k is not the field's system
         apply |-> [k \in Reprs |-> IF k = repr THEN "value" ELSE "refused"]]
 
@@ -92,11 +115,15 @@ Init == /\ obj = Object
         /\ \E p \in BasePoints, o \in Octants :
              /\ a = Signed(p, o)
              /\ IF Object = "vector" THEN b = Signed(Partner, (o % 8) + 1) /\ magn = Length(p)
-                                     ELSE b \in Monomials /\ magn = 0
+                                     ELSE /\ magn = 0
+                                          /\ b \in Monomials \cup (IF AngleFields /\ HalfDefined(a)
+                                                                   THEN {HalfSinField, HalfCosField} ELSE {})
+        /\ (OnAxis(a) => repr \in {"cart", "sph"})         \* no cylindrical description on the axis
         /\ start = [repr |-> repr, a |-> a, b |-> b, obs |-> Observation]
 
 Rebase(to) ==
   /\ Len(path) < MaxDepth
+  /\ (OnAxis(a) => to \in {"cart", repr})         \* into a system where the vector is singular: not covered
   /\ UNCHANGED <<obj, a, den, magn, b, start>>    \* the geometric object is not touched
   /\ IF Allowed(repr, to) THEN repr' = to ELSE repr' = repr
   /\ path' = Append(path, Step("rebase", to, Allowed(repr, to)))
@@ -135,7 +162,7 @@ MagnitudeIsNorm == obj = "vector" => magn > 0 /\ magn * magn = MagSq3(a)
 FieldAppliesToOwnPoints ==
   obj = "field" => \A k \in Reprs : (Observation.apply[k] = "value") = (k = repr)
 \* points are away from the coordinate singularities (x = y = 0) and all numbers stay far below 2^31
-AwayFromAxis == a[1] # 0 \/ a[2] # 0
+AwayFromAxis == OnAxis(a) => repr \in {"cart", "sph"} /\ obj = "vector"
 Small32 == /\ \A i \in 1..3 : AbsI(a[i]) < 20000 /\ AbsI(b[i]) < 200
            /\ den <= 64
 
